@@ -2,6 +2,7 @@ package rcall
 
 import (
 	"github.com/modernizing/coca/pkg/domain/core_domain"
+	"strings"
 )
 
 type RCallGraph struct {
@@ -87,7 +88,7 @@ func (c RCallGraph) BuildRCallChain(funcName string, methodMap map[string][]stri
 			if funcName == child {
 				continue
 			}
-			newCall := "\"" + child + "\" -> \"" + funcName + "\";\n"
+			newCall := "\"" + escapeStr(child) + "\" -> \"" + escapeStr(funcName) + "\";\n"
 			arrayResult = arrayResult + newCall
 		}
 
@@ -95,4 +96,8 @@ func (c RCallGraph) BuildRCallChain(funcName string, methodMap map[string][]stri
 
 	}
 	return "\n"
+}
+
+func escapeStr(name string) string {
+	return strings.ReplaceAll(name, "\"", "\\\"")
 }
